@@ -57,6 +57,9 @@ def gen_cases(tier, seed):
                     cases.append({"t": "fin", "N": N, "ivl": ivl, "size": size, "recover": [j, order, "phase2"]})
         for nfd, cks in itertools.product((0, 1, 3), ("crc32", "modular")):
             cases.append({"t": "cancel_mid", "N": N, "ivl": ivl, "nfd": nfd, "cks": cks})
+        for i, cond in enumerate(EOF_CANCEL_CONDS):
+            for md, nfd in ((True, 0), (True, 2), (False, 1)):
+                cases.append({"t": "cancel_resp", "N": N, "ivl": ivl, "cond": cond, "md": md, "nfd": nfd, "imm": bool((i + nfd) % 2)})
         for imm, md_missing in itertools.product((True, False), (False, True)):
             for Na in (1, 2, 3):
                 cases.append({"t": "nak", "N": N, "Na": Na, "ivl": ivl, "imm": imm, "md_missing": md_missing, "progress": None})
@@ -359,6 +362,63 @@ def run_cancel_mid(case):
         return p.viol, obs, trace_summary(w, None, 40)
 
 
+EOF_CANCEL_CONDS = ["CANCEL_REQUEST_RECEIVED", "POSITIVE_ACK_LIMIT_REACHED", "NAK_LIMIT_REACHED", "FILE_CHECKSUM_FAILURE", "FILE_SIZE_ERROR",
+                    "FILESTORE_REJECTION", "INACTIVITY_DETECTED", "INVALID_TRANSMISSION_MODE", "CHECK_LIMIT_REACHED",
+                    "UNSUPPORTED_CHECKSUM_TYPE", "KEEP_ALIVE_LIMIT_REACHED", "SUSPEND_REQUEST_RECEIVED"]
+
+
+def run_cancel_resp(case):
+    """The receiver is told by an EOF (cancel) PDU, whatever condition code the sender gives in it, that the transaction is cancelled; it
+    answers with the ACK and a Finished PDU, and the sender falls silent: the Finished PDU is re-sent unchanged N-1 times, then the
+    transaction is abandoned and the handler is idle (which callback reports the abandonment is not prescribed here)."""
+    N, ivl_ms, cond = case["N"], int(case["ivl"] * 1000), case["cond"]
+    cfg = {"mode": "ack", "size": 20, "seg": 4, "ack_limit": N, "ack_ivl": case["ivl"], "nak_ivl": 77.0, "fs": "mem", "imm_nak": case["imm"]}
+    obs = {}
+    with World(cfg) as w:
+        D = w.D
+        tc = prep.tx_conf(w)
+        p = Probe(w, D)
+        sent = 4 * case["nfd"]
+        if case["md"]:
+            p.call(pdugen.raw("MD", tc, {"size": 20, "cks": "crc32", "closure": False, "src_name": w.src_path.as_posix(), "dst_name": w.dst_req_path.as_posix()}))
+        for i in range(case["nfd"]):
+            p.call(pdugen.raw("FD", tc, {"offset": 4 * i, "data": w.data[4 * i : 4 * i + 4]}))
+        p.viol.clear()
+        p.since()
+        got = p.call(pdugen.raw("EOF", tc, {"size": sent, "cksum": models.checksum("crc32", w.data[:sent]), "cond": cond}))
+        more = p.call()
+        tx = got[0] + more[0]
+        fin = [t for t in tx if t["d"].get("kind") == "FIN"]
+        if D.h.state.name == "IDLE" and not tx:
+            # (nothing to answer: without Metadata and file data there is no transaction the EOF (cancel) could belong to)
+            obs["eof_cancel_without_transaction"] = 1
+            return p.viol, obs, None
+        # (what the Finished PDU carries is C12's subject; with Unsupported Checksum Type the dependency packs a Finished PDU whose length
+        # field counts a fault location it leaves out - DESIGN 9.2 - so only the kind is looked at here)
+        if [t["d"].get("kind") for t in tx] != ["ACK_EOF", "FIN"]:
+            p.viol.append({"clause": "eof-cancel-not-answered-with-ack-and-finished", "cond": cond, "tx": [wire.short(t["d"]) for t in tx]})
+            return p.viol, obs, trace_summary(w, None, 40)
+        t_reset = vclock.now_ms()
+        for e in range(1, N + 1):
+            got = p.expiry(t_reset, ivl_ms, f"finished-cancel({cond}):expiry-{e}")
+            t_reset = vclock.now_ms()
+            if e < N:
+                p.check(got, f"finished-cancel({cond}):expiry-{e}-of-{N}:re-send-unchanged", tx_raw=[fin[0]["raw"]], fh=[], fins=[])
+                obs["resends_checked"] = obs.get("resends_checked", 0) + 1
+            else:
+                if got[0] or got[2]:
+                    p.viol.append({"clause": "expiry-behaviour-differs-from-retry-model", "when": f"finished-cancel({cond}):expiry-{N}:abandon",
+                                   "got_tx": [wire.short(t["d"]) for t in got[0]], "got_fins": got[2], "want_tx": []})
+                obs["abandons_checked"] = obs.get("abandons_checked", 0) + 1
+                obs["abandons_of_cancel_response_checked"] = obs.get("abandons_of_cancel_response_checked", 0) + 1
+                if D.h.state.name != "IDLE":
+                    p.viol.append({"clause": "not-idle-after-abandon", "step": D.h.step.name, "cond": cond})
+        p.quiet_for(ivl_ms, 3, "after-abandon", idle_step="IDLE")
+        obs["expiries"] = p.expiries
+        obs["cancel_response_scenarios"] = 1
+        return p.viol, obs, trace_summary(w, None, 40)
+
+
 def run_nak(case):
     N, Na, ivl_ms = case["N"], case["Na"], int(case["ivl"] * 1000)
     ack_ivl_ms = ivl_ms * 3 + 7
@@ -538,6 +598,8 @@ def run_case(case):
     elif case["t"] == "cancel_mid":
         viol, obs, sample = run_cancel_mid(case)
         obs["cancel_mid_scenarios"] = 1
+    elif case["t"] == "cancel_resp":
+        viol, obs, sample = run_cancel_resp(case)
     else:
         viol, obs, sample = run_cut(case)
     for v in viol:
@@ -551,4 +613,5 @@ def exhaustive(tier):
 
 
 REQUIRED = {"eof_scenarios": 20, "fin_scenarios": 20, "nak_scenarios": 20, "limit_faults_checked": 50, "abandons_checked": 50,
-            "resends_checked": 50, "eof_cancel_mid_file_resends_checked": 10, "scenarios_on_reused_handler_with_retuned_interval": 10, "scenarios_next_to_other_entity_with_own_fault_table": 10, "progress_resets_checked": 4, "nak_sequence_fills_last_pdu_exactly": 10, "nak_sequence_pdus_1": 10, "nak_sequence_pdus_2": 10, "recovered_runs": 10, "non_progress_pdus_mid_interval": 20, "non_progress_pdus_with_expiry": 10, "refused_put_requests_mid_interval": 10, "cut_runs": 50, "cut_limit_faults": 10}
+            "resends_checked": 50, "eof_cancel_mid_file_resends_checked": 10, "scenarios_on_reused_handler_with_retuned_interval": 10, "scenarios_next_to_other_entity_with_own_fault_table": 10, "progress_resets_checked": 4, "nak_sequence_fills_last_pdu_exactly": 10, "nak_sequence_pdus_1": 10, "nak_sequence_pdus_2": 10, "recovered_runs": 10, "non_progress_pdus_mid_interval": 20, "non_progress_pdus_with_expiry": 10, "refused_put_requests_mid_interval": 10, "cut_runs": 50, "cut_limit_faults": 10,
+            "cancel_response_scenarios": 50, "abandons_of_cancel_response_checked": 50}
